@@ -11,6 +11,9 @@ def get_prop(pid):
     if pid in ("C12", "C03"):
         import p_grid
         return p_grid.MoveProp(pid)
+    if pid == "C16":
+        import p_trainer
+        return p_trainer.TrainerProp()
     raise SystemExit(f"unknown property {pid}")
 
 
